@@ -250,4 +250,12 @@ def c_with_indices(cex, obs):
     return False, 'native substring is the char-wise substring'
 
 
-CONFIRM = {'with_indices': c_with_indices, 'eqhash': c_eqhash, 'threads': c_threads, 'rope': c_rope, 'tree': c_tree, 'decode': c_decode, 'decode_bytes': c_decode, 'decoder_step': c_decode, 'roundtrip': c_roundtrip, 'lines_only': c_lines_only, 'vlq': c_vlq}
+def c_json(cex, obs):
+    from . import json_oracle as JO
+    for prof, o in obs.items():
+        vs = JO.judge_native(cex, o)
+        if vs: return True, '%s build: %s' % (prof, '; '.join(vs[:2]))
+    return False, 'native observations satisfy the JSON oracles'
+
+
+CONFIRM = {'json': c_json, 'jsondoc': c_json, 'with_indices': c_with_indices, 'eqhash': c_eqhash, 'threads': c_threads, 'rope': c_rope, 'tree': c_tree, 'decode': c_decode, 'decode_bytes': c_decode, 'decoder_step': c_decode, 'roundtrip': c_roundtrip, 'lines_only': c_lines_only, 'vlq': c_vlq}
